@@ -44,7 +44,7 @@ def unroll(expr: Expression, _rules: Mapping[str, Rule]) -> Expression:  # noqa:
     """Transform Rep{Once,Exact,Min,Max,MinMax} to Seq."""
     match expr:
         case RepeatOnce(expression=inner):
-            if isinstance(inner, Group):
+            if isinstance(inner, Group) and not inner.tag:
                 return Sequence(inner.expression, Repeat(inner))
             return Sequence(inner, Repeat(inner))
         case RepeatExact(expression=inner, number=num):
